@@ -75,6 +75,11 @@ void genLoop(Rng& r, KV& kv, const Opts& o, const LoopGen& g) {
   i128 lo, hi;
   limitsOf(ty, lo, hi);
   long n = r.range(0, g.e1 ? 3 : 4);
+  // large pools (native only): more than 16 participating workers take the multi-group dynamic path
+  if (!g.e1 && r.chance(1, 6))
+    n = r.pick<long>({6, 8, 12, 15, 16, 17, 20});
+  if (g.e1 && o.thorough() && r.chance(1, 8))
+    n = r.range(4, 5);
   kv.set("n", n);
   long chunking = r.pick<long>({0, 0, 1, 1, 1, 2});
   long form = g.needRangeForm ? 1 : r.range(0, 1);
@@ -149,6 +154,36 @@ void genLoop(Rng& r, KV& kv, const Opts& o, const LoopGen& g) {
   // signed 64-bit: the library's size_type is int64 -> keep end - start <= INT64_MAX (documented limit)
   if (ty == 6 && end - start > (i128)INT64_MAX)
     end = start + (i128)INT64_MAX;
+  // focus class "few granular chunks + tail": size = k*gran + r with k around the worker count
+  // (fewer chunks than workers, as many, one more) and 0 < r < gran; the paths that treat the tail
+  // specially (static / dynamic, wait / no wait) and the maxThreads clamp by granularity live here
+  long focusGran = 0;
+  if (r.chance(1, 5) && hi - lo >= 200) {
+    focusGran = r.pick<long>({2, 3, 4, 8, 16});
+    long k = r.range(1, n + 2);
+    if (r.chance(1, 4))
+      k = r.range(1, 12);
+    long rem = r.range(1, focusGran - 1);
+    i128 sz = (i128)k * focusGran + rem;
+    if (sz > hi - lo)
+      sz = hi - lo;
+    if (start + sz > hi)
+      start = hi - sz;
+    end = start + sz;
+    if (chunking == 2)
+      chunking = r.range(0, 1);
+  }
+  // focus class "short range, explicit small chunk": no more items than workers
+  bool shortExplicit = false;
+  if (!focusGran && r.chance(1, 10) && n >= 1) {
+    shortExplicit = true;
+    i128 sz = r.range(2, n + 1);
+    if (start + sz > hi)
+      start = hi - sz;
+    end = start + sz;
+    chunking = 2;
+    form = 1;
+  }
   if (end - start > ((i128)1 << 62)) {
     if (g.allow63 && !o.isKnown("size63") && !getenv("VF_NO63"))
       kv.set("sigclass", "size63"); // failures of this input class are reported under one signature
@@ -173,13 +208,21 @@ void genLoop(Rng& r, KV& kv, const Opts& o, const LoopGen& g) {
       chunk = 1;
     if (chunk > (i128)INT64_MAX)
       chunk = (i128)INT64_MAX;
+    if (shortExplicit)
+      chunk = r.range(1, 2);
     kv.set("chunk", s128(chunk));
     kv.set("form", 1L);
   }
   kv.set("maxT", r.chance(1, 3) ? 0x7fffffffL : r.range(0, n + 2));
+  if (focusGran && r.chance(1, 2))
+    kv.set("maxT", r.range(2, std::max<long>(2, n)));
   kv.set("wait", r.chance(2, 3) ? 1L : 0L);
   kv.set("minItems", r.pick<long>({1, 1, 1, 2, 7, 100}));
+  if (focusGran && !r.chance(1, 4))
+    kv.set("minItems", 1L);
   long gran = g.needGran ? r.pick<long>({2, 3, 4, 7, 8, 16, 64}) : r.pick<long>({1, 1, 1, 2, 3, 8, 64});
+  if (focusGran)
+    gran = focusGran;
   kv.set("gran", gran);
   kv.set("state", state);
   kv.set("reuse", r.chance(1, 3) ? 1L : 0L);
